@@ -11,6 +11,11 @@ def run_property(pid, mod, tier, seed, t0):
     known = fw.load_known()
     notes = []
     broken = []           # names of theorems / correspondences that no longer check
+    # the generated Lean files and lake's build directory are shared by all checks: regeneration + build + audit run
+    # under an exclusive lock, so that checks started in parallel do not rebuild the same target at the same time
+    import fcntl
+    _lock = open(os.path.join(os.path.dirname(os.path.abspath(__file__)), "..", "lean", ".verif.lock"), "w")
+    fcntl.flock(_lock, fcntl.LOCK_EX)
     # 1. translators (the Float objectives are part of the driver: keep them in step with the source for every check)
     if pid != "C17":
         try:
@@ -46,6 +51,7 @@ def run_property(pid, mod, tier, seed, t0):
         lc = leangate.leanchecker([f"PyXABProofs.Props.{pid}"] + list(getattr(mod, "LEAN_EXTRA", ())))
         if not lc["ok"]:
             print(lc["tail"]); print(f"MACHINERY-ERROR property={pid} leanchecker rejected a compiled module"); return 2
+    fcntl.flock(_lock, fcntl.LOCK_UN); _lock.close()
     # 3. correspondence + monitors
     budget = mod.budget(tier)
     res = mod.explore(tier, seed, budget)          # -> dict(cases, mism, n_ops, extra)
